@@ -119,6 +119,24 @@ func (c *Ctx) cxn() *cxnAnchors {
 			}
 		}
 	}
+	if a.parseFn == nil && a.runFn != nil {
+		// the parser may be made by a helper type that holds the pending bytes (`cc.inbound.nextCommand()`): the function
+		// the run loop reaches that creates the deserializer
+		reach := c.M.Reach(a.runFn)
+		var cands []*ssa.Function
+		for f := range reach {
+			for _, in := range instrsOf(f) {
+				if call, ok := in.(*ssa.Call); ok {
+					if g := call.Call.StaticCallee(); g != nil && g.Signature.Results().Len() == 1 && c.isPkgType(g.Signature.Results().At(0).Type(), "respDeserializer") {
+						cands = append(cands, f)
+					}
+				}
+			}
+		}
+		if len(cands) == 1 {
+			a.parseFn = cands[0]
+		}
+	}
 	for name, f := range map[string]*ssa.Function{"state-change sender": a.queueFn, "socket reader": a.readFn, "reply writer": a.writeFn, "state machine loop": a.runFn, "request parser": a.parseFn} {
 		if f == nil {
 			a.errs = append(a.errs, name+" not found")
@@ -217,14 +235,68 @@ func (a *cxnAnchors) queueCalls(fn *ssa.Function, state int64) []*ssa.Call {
 	var out []*ssa.Call
 	for _, in := range instrsOf(fn) {
 		call, ok := in.(*ssa.Call)
-		if !ok || call.Call.StaticCallee() != a.queueFn || len(call.Call.Args) < 2 {
+		if !ok {
 			continue
 		}
-		if k, isC := constInt(call.Call.Args[1]); isC && k == state {
+		if st, _, ok := a.queuedState(call); ok && st == state {
 			out = append(out, call)
 		}
 	}
 	return out
+}
+
+// queuedState: the call queues a state change with a constant state — directly, or through a thin wrapper that does
+// nothing but forward to the sender with its own constant (`cc.thenWaitForCommand()`, `cc.thenDispatchCommand(cmd)`).
+// data is the event data as seen at this call site (nil when the wrapper passes the constant nil).
+func (a *cxnAnchors) queuedState(call *ssa.Call) (state int64, data ssa.Value, ok bool) {
+	g := call.Call.StaticCallee()
+	if g == nil {
+		return 0, nil, false
+	}
+	if g == a.queueFn {
+		if len(call.Call.Args) < 2 {
+			return 0, nil, false
+		}
+		k, isC := constInt(call.Call.Args[1])
+		if !isC {
+			return 0, nil, false
+		}
+		if len(call.Call.Args) >= 3 {
+			data = call.Call.Args[2]
+		}
+		return k, data, true
+	}
+	if len(g.Blocks) != 1 {
+		return 0, nil, false // a wrapper has no branches
+	}
+	var inner *ssa.Call
+	for _, in := range g.Blocks[0].Instrs {
+		if c2, isCall := in.(*ssa.Call); isCall {
+			if inner != nil || c2.Call.StaticCallee() != a.queueFn {
+				return 0, nil, false
+			}
+			inner = c2
+		}
+	}
+	if inner == nil || len(inner.Call.Args) < 2 {
+		return 0, nil, false
+	}
+	k, isC := constInt(inner.Call.Args[1])
+	if !isC {
+		return 0, nil, false
+	}
+	if len(inner.Call.Args) >= 3 {
+		d := inner.Call.Args[2]
+		if mi, isMi := d.(*ssa.MakeInterface); isMi {
+			d = mi.X
+		}
+		for i, p := range g.Params {
+			if d == ssa.Value(p) && i < len(call.Call.Args) {
+				data = call.Call.Args[i]
+			}
+		}
+	}
+	return k, data, true
 }
 
 const textRearm = "R-C01-rearm: one command in flight per connection, replies in request order: the goroutine that runs a command performs exactly one socket write per path and re-arms the wait-for-command state only after that write succeeded; the socket is read only under the wait state; no function both hands a command to the dispatcher and re-arms the read on one path"
@@ -663,10 +735,11 @@ func (c *Ctx) lengthOfDispatched(a *cxnAnchors, fn *ssa.Function, low ssa.Value)
 		return false
 	}
 	for _, d := range ds {
-		if len(d.Call.Args) < 3 {
+		_, data, _ := a.queuedState(d)
+		if data == nil {
 			return false
 		}
-		valSrc := src(d.Call.Args[2], 0)
+		valSrc := src(data, 0)
 		if valSrc[nil] || len(valSrc) != len(lenSrc) {
 			return false
 		}
@@ -966,6 +1039,37 @@ func ruleC01Line(c *Ctx) {
 										emit = g
 									}
 								}
+							}
+						}
+					}
+				}
+			}
+		}
+	}
+	if emit == nil {
+		// serialisation by method dispatch: the function the writing methods of the two line-oriented kinds call
+		for _, fn := range c.SrcFuncs() {
+			if fn.Signature.Recv() == nil || fn.Signature.Results().Len() != 0 {
+				continue
+			}
+			if !(c.isPkgType(fn.Signature.Recv().Type(), "respSimpleString") || c.isPkgType(fn.Signature.Recv().Type(), "respErrorString")) {
+				continue
+			}
+			writes := false
+			for _, p := range fn.Params {
+				if strings.HasSuffix(p.Type().String(), "strings.Builder") {
+					writes = true
+				}
+			}
+			if !writes {
+				continue
+			}
+			for _, in := range instrsOf(fn) {
+				if call, ok := in.(*ssa.Call); ok {
+					if g := call.Call.StaticCallee(); g != nil && c.InPkg(g) && emit == nil {
+						for _, p := range g.Params {
+							if bt, ok := p.Type().Underlying().(*types.Basic); ok && bt.Kind() == types.String {
+								emit = g
 							}
 						}
 					}
@@ -1448,14 +1552,43 @@ func ruleC01Frame(c *Ctx) {
 				c.S.OK("R-C01-frame", key, c.Pos(s2.Pos()), "the position is the result of a search inside the content (found index plus the length of what was found)")
 				continue
 			}
-			guarded := false
-			for _, b := range fn.Blocks {
-				ifi, ok := b.Instrs[len(b.Instrs)-1].(*ssa.If)
-				if !ok || !b.Dominates(s2.Block()) || b == s2.Block() {
-					continue
+			guardedAt := func(blk *ssa.BasicBlock) bool {
+				for _, b := range blk.Parent().Blocks {
+					ifi, ok := b.Instrs[len(b.Instrs)-1].(*ssa.If)
+					if !ok || !b.Dominates(blk) || b == blk {
+						continue
+					}
+					if involvesLen(ifi.Cond, 0) {
+						return true
+					}
 				}
-				if involvesLen(ifi.Cond, 0) {
-					guarded = true
+				return false
+			}
+			guarded := guardedAt(s2.Block())
+			// a setter (`rememberNextLine(pos)`): the position is judged where it is computed, at every call
+			if p, isParam := s2.Val.(*ssa.Parameter); isParam && !guarded {
+				idx := -1
+				for i, q := range fn.Params {
+					if q == p {
+						idx = i
+					}
+				}
+				if node := c.CG.Nodes[fn]; node != nil && idx >= 0 && len(node.In) > 0 {
+					all := true
+					for _, e := range node.In {
+						args := e.Site.Common().Args
+						if e.Site.Common().IsInvoke() || idx >= len(args) {
+							all = false
+							continue
+						}
+						a2 := args[idx]
+						_, cf := loadedField(a2)
+						_, isConst := a2.(*ssa.Const)
+						if !(isConst || (cf != nil && intFields[cf]) || fromContentSearch(c, a2, fContent, 0) || guardedAt(e.Site.Block())) {
+							all = false
+						}
+					}
+					guarded = all
 				}
 			}
 			if guarded {
